@@ -11,10 +11,10 @@ import LopdfModel.Gen.CMapConsts
     `rmGetKV` is `get_key_value`: the last run whose start is `<= key`, if it contains the key.
   * `UMap` = `ToUnicodeCMap.bf_ranges` (one range map per code length 1..4),
     `put`, `putChar`, `get`, `getOrReplacement`, `fromSections` as written in
-    src/encodings/cmap.rs — including how `get` computes the offset from the start of the
-    *stored* run, the `as u16` truncation, the overflow-checked `u16 +=`, array indexing.
+    src/encodings/cmap.rs — stored targets carry the start of their own definition, `get` counts the
+    offset from it (`as u16` truncation, wrapping `u16` add, checked `u32` subtraction, `.get()` indexing).
   * `segment` / `bytesToUnits` : the code segmentation loop of `Encoding::bytes_to_string`.
-  * `decodeUnits` : what `encoding_rs::UTF_16BE.decode` (BOM sniffing!) makes of the units.
+  * `decodeUnits` : `encoding_rs::UTF_16BE.decode_without_bom_handling` of the units.
 
   Codes are `u32` in Rust and `Nat` here; all theorems carry `code < 2^32` where it matters.
 -/
@@ -63,9 +63,9 @@ def rmGetKV {V : Type} (m : RangeMap V) (c : Nat) : Option (Run V) :=
 
 /-- `BfRangeTarget` -/
 inductive Target where
-  | hex (v : List Nat)            -- HexString(Vec<u16>)
-  | cp (offset : Nat)             -- UTF16CodePoint { offset: u32 }
-  | arr (vs : List (List Nat))    -- ArrayOfHexStrings(Vec<Vec<u16>>)
+  | hex (start : Nat) (v : List Nat)            -- HexString { start: u32, value: Vec<u16> }
+  | cp (offset : Nat)                           -- UTF16CodePoint { offset: u32 }
+  | arr (start : Nat) (vs : List (List Nat))    -- ArrayOfHexStrings { start: u32, values: Vec<Vec<u16>> }
   deriving DecidableEq, Repr
 
 def U32 : Nat := 4294967296
@@ -92,31 +92,30 @@ def put (m : UMap) (lo hi len : Nat) (t : Target) : UMap :=
 def putChar (m : UMap) (code len : Nat) (dst : List Nat) : UMap :=
   match dst with
   | [u] => put m code code len (.cp (wrappingSub u code))
-  | _ => put m code code len (.hex dst)
+  | _ => put m code code len (.hex code dst)
 
-/-- the closure of `get`: the value for `code` given the stored run `start..=_ ↦ t` that contains it.
-`panic` carries the source line of the panicking expression. -/
-def targetAt (code start : Nat) : Target → Outcome (Option (List Nat))
-  | .hex v =>
+/-- the closure of `get`: the value for `code` given the stored target of the run that contains it.
+The stored target carries the start of its own definition; `code - start` is a `u32` subtraction with
+overflow checks on, so the model makes the panic explicit (`cmap_get_no_panic` proves it unreachable). -/
+def targetAt (code : Nat) : Target → Outcome (Option (List Nat))
+  | .hex start v =>
     match v.getLast? with
-    | none => .panic CMAP_SITE_ADD                       -- last_mut().unwrap() on an empty Vec
+    | none => .ok none                                           -- `ret_vec.last_mut()?`
     | some last =>
-      let d := (code - start) % U16                      -- (code - range.start()) as u16
-      if last + d ≥ U16 then .panic CMAP_SITE_ADD        -- `+=` on u16, overflow checks on
-      else .ok (some (v.dropLast ++ [last + d]))
+      if code < start then .panic CMAP_SITE_SUB_HEX
+      else .ok (some (v.dropLast ++ [(last + (code - start) % U16) % U16]))   -- wrapping_add((code - start) as u16)
   | .cp off => .ok (some [wrappingAdd code off % U16])
-  | .arr vs =>
-    match vs[code - start]? with
-    | none => .panic CMAP_SITE_INDEX                     -- slice index out of bounds
-    | some s => .ok (some s)
+  | .arr start vs =>
+    if code < start then .panic CMAP_SITE_SUB_ARR
+    else .ok vs[code - start]?                                   -- values.get(..).cloned()
 
-/-- `ToUnicodeCMap::get` -/
+/-- `ToUnicodeCMap::get` (`bf_ranges_map.get(&code)` = value of `get_key_value`) -/
 def get (m : UMap) (code len : Nat) : Outcome (Option (List Nat)) :=
   if badLen len then .ok none
   else
     match rmGetKV (m len) code with
     | none => .ok none
-    | some (start, _, t) => targetAt code start t
+    | some (_, _, t) => targetAt code t
 
 /-- `ToUnicodeCMap::get_or_replacement_char` -/
 def getOrReplacement (m : UMap) (code len : Nat) : Outcome (List Nat) :=
@@ -141,8 +140,8 @@ def putRangeLine (m : UMap) (line : (Nat × Nat × Nat) × List (List Nat)) : Op
     match dsts with
     | [] => none
     | [[u]] => some (put m start stop len (.cp (wrappingSub u start)))
-    | [t] => some (put m start stop len (.hex t))
-    | _ => some (put m start stop len (.arr dsts))
+    | [t] => some (put m start stop len (.hex start t))
+    | _ => some (put m start stop len (.arr start dsts))
 
 def putRangeLines : UMap → List ((Nat × Nat × Nat) × List (List Nat)) → Option UMap
   | m, [] => some m
@@ -229,26 +228,7 @@ def utf16Go : Option Nat → List Nat → List Nat
 
 def utf16Scalars (us : List Nat) : List Nat := utf16Go none us
 
-def swapUnit (u : Nat) : Nat := (u % 256) * 256 + u / 256
-
-inductive Decoded where
-  | scalars (cs : List Nat)
-  /-- the output began with the bytes EF BB BF: `decode` switches to UTF-8 (not modelled further) -/
-  | utf8Sniffed
-  deriving Repr, DecidableEq
-
-/-- `UTF_16BE.decode(bytes).0`: a leading FE FF is dropped, a leading FF FE switches to
-UTF-16LE, a leading EF BB BF switches to UTF-8. -/
-def decodeUnits (us : List Nat) : Decoded :=
-  match us with
-  | [] => .scalars []
-  | u :: rest =>
-    if u = 0xFEFF then .scalars (utf16Scalars rest)
-    else if u = 0xFFFE then .scalars (utf16Scalars (rest.map swapUnit))
-    else if u = 0xEFBB then
-      match rest with
-      | v :: _ => if v / 256 = 0xBF then .utf8Sniffed else .scalars (utf16Scalars us)
-      | [] => .scalars (utf16Scalars us)
-    else .scalars (utf16Scalars us)
+/-- `UTF_16BE.decode_without_bom_handling(bytes).0`: plain UTF-16BE decoding, nothing is sniffed or dropped. -/
+def decodeUnits (us : List Nat) : List Nat := utf16Scalars us
 
 end Lopdf.CMap
